@@ -38,7 +38,8 @@ def status():
         pid = "C%02d" % i
         if pid in ch:
             c = ch[pid]
-            rows.append("| %s | claimed | %s | %s |" % (pid, c.get("level", ""), esc(str(c.get("technique", ""))[:300])))
+            lvl = (c.get("level_claimed") or {}).get("category", c.get("level", ""))
+            rows.append("| %s | claimed | %s | %s |" % (pid, lvl, esc(str(c.get("technique", ""))[:300])))
         elif pid in na:
             rows.append("| %s | not claimed | | %s |" % (pid, esc(str(na[pid].get("reason", ""))[:400])))
     return "\n".join(rows)
@@ -69,6 +70,10 @@ def seeds():
             rj = json.load(open(d + "/result.json"))
             parts = []
             for pid, r in sorted(rj.items()):
+                if r.get("stale_patch") and "exit" not in r:
+                    parts.append("reverse patch no longer applies to the current tree (its lines were changed "
+                                 "again by later repairs); not re-run")
+                    continue
                 if r.get("caught"):
                     why = (r.get("why") or [""])[0]
                     why = re.sub(r"^.*violation:\s*", "", why)[:140]
